@@ -469,6 +469,7 @@ func Run(ctx *core.Ctx) {
 					ss.walk(k, sites, hooks, ctx.Thorough() || k%2 == 0)
 				}
 				ctx.Count("chan_msgs_discarded_other_channels", ss.sub.Discarded)
+				ctx.Count("webhook_redeliveries_suppressed", ss.ep.Redelivered())
 			}(pop, wid, w, perPop, mine)
 		}
 		widBase += perPop
